@@ -12,6 +12,7 @@ namespace wbgen
   typedef std::array<double,3> P3;
   const double PI = 3.14159265358979323846;
   const double R_EARTH = 6371000.0;
+  const double CART_TOP = 1e6;
 
   inline std::string num(double v)
   {
@@ -54,9 +55,9 @@ namespace wbgen
     return spherical ? "\"coordinate system\":{\"model\":\"spherical\",\"depth method\":\"" + depth_method + "\"}"
            : "\"coordinate system\":{\"model\":\"cartesian\"}";
   }
-  // natural (x,y,depth) -> cartesian query point. Cartesian worlds: z = -depth offset from 0 is irrelevant
-  // to GWB (depth is passed separately); we use z = top - depth with top = 0.
-  // spherical: lon/lat in degrees, radius = R - depth
+  // natural (x,y,depth) -> cartesian query point. Cartesian worlds: z = top - depth with the model top at
+  // CART_TOP (as in the repository's own data files, where z + depth = 1000 km; slabs and faults use z + depth
+  // as the height of the surface). spherical: lon/lat in degrees, radius = R - depth
   inline P3 sph(double lon_deg, double lat_deg, double radius)
   {
     const double lo = lon_deg * PI / 180.0, la = lat_deg * PI / 180.0;
@@ -65,6 +66,6 @@ namespace wbgen
   inline P3 query_point(bool spherical, double x, double y, double depth)
   {
     if (spherical) return sph(x, y, R_EARTH - depth);
-    return {{x, y, -depth}};
+    return {{x, y, CART_TOP - depth}};
   }
 }
